@@ -1129,6 +1129,48 @@ def gen_lp_rows(an: ast.AST) -> str:
             f"def lpRhsIsNegatedConstant : Bool := {bb(rhs_t.startswith('rhs = -'))}\n")
 
 
+
+def gen_sort_glue(repo: str) -> str:
+    """How variable names are ordered: the number-splitting regular expression (both copies), the sort key built in
+    `Variable.__init__` (and every other place in the package that assigns or reads `_sort_key`), the body of
+    `_natural_sort_key` and the `sorted(...)` calls of `Problem.variables` — as text.  `Py.sortKey` /
+    `Py.problemVariables` (C16) are readings of exactly this."""
+    import glob as _glob
+    root = os.path.join(repo, "src", "optyx")
+    pats, key_sites = [], []
+    for f in sorted(_glob.glob(os.path.join(root, "**", "*.py"), recursive=True)):
+        rel = os.path.relpath(f, root)
+        tree = ast.parse(open(f).read())
+        for n in ast.walk(tree):
+            if isinstance(n, ast.Assign) and _u(n.targets[0]) == "_NUMBER_SPLIT_RE":
+                pats.append((rel, _u(n.value)))
+        # every statement that mentions `_sort_key`, with the header of each enclosing compound statement
+        def visit(stmts, ctx):
+            for st in stmts:
+                hdr = None
+                if isinstance(st, (ast.If, ast.For, ast.While, ast.With, ast.Try, ast.FunctionDef, ast.ClassDef)):
+                    hdr = _u(st).split("\n")[0]
+                    for fld in ("body", "orelse", "finalbody"):
+                        visit(getattr(st, fld, []) or [], ctx + [hdr])
+                    for h in getattr(st, "handlers", []) or []:
+                        visit(h.body, ctx + [hdr])
+                    if isinstance(st, ast.FunctionDef) and any(a.arg == "_sort_key" for a in st.args.args + st.args.kwonlyargs):
+                        key_sites.append((rel, " > ".join(ctx + [hdr]), "<parameter _sort_key>"))
+                elif "_sort_key" in _u(st):
+                    key_sites.append((rel, " > ".join(ctx), " ".join(_u(st).split())))
+        visit(tree.body, [])
+    pb = ast.parse(open(os.path.join(root, "problem.py")).read())
+    fn = find_func(pb, "_natural_sort_key")
+    body = [" ".join(_u(st).split()) for st in fn.body if not (isinstance(st, ast.Expr) and isinstance(st.value, ast.Constant))]
+    sorts = sorted({" ".join(_u(n).split()) for n in ast.walk(pb) if isinstance(n, ast.Call) and _u(n.func) == "sorted"})
+    ls = lambda xs: "[" + ", ".join(json.dumps(x) for x in xs) + "]"
+    ts = lambda xs: "[" + ", ".join("(" + ", ".join(json.dumps(y) for y in x) + ")" for x in xs) + "]"
+    return (f"def sortSplitPatterns : List (String × String) := {ts(pats)}\n"
+            f"def sortKeySites : List (String × String × String) := {ts(key_sites)}\n"
+            f"def naturalSortKeyBody : List String := {ls(body)}\n"
+            f"def problemSortedCalls : List String := {ls(sorts)}\n")
+
+
 HEADER = """/-
   GENERATED by harness/gen_tables.py from the optyx sources — do not edit.
   Regenerated before every build; the theorems that mention these definitions are
@@ -1174,6 +1216,9 @@ def main(repo: str, outdir: str, dry: bool = False) -> int:
     def f_dispatch():
         return (HEADER + "namespace Optyx.Generated\n\n" + gen_dispatch(src("problem.py")) + "\nend Optyx.Generated\n")
 
+    def f_sort():
+        return HEADER + "namespace Optyx.Generated\n\n" + gen_sort_glue(repo) + "\nend Optyx.Generated\n"
+
     def f_glue():
         return (HEADER + "namespace Optyx.Generated\n\n" + gen_solver_glue(src("solvers/scipy_solver.py"))
                 + "\nend Optyx.Generated\n")
@@ -1189,7 +1234,7 @@ def main(repo: str, outdir: str, dry: bool = False) -> int:
     changed, errors, h = False, {}, hashlib.sha256()
     for fname, make in (("GradRules", f_rules), ("Tables", f_tables), ("Closures", f_closures), ("SolverGlue", f_glue),
                         ("JacRow", f_jacrow), ("InitPoint", f_init), ("Dispatch", f_dispatch),
-                        ("ApiGlue", f_apiglue), ("LPGlue", f_lpglue)):
+                        ("ApiGlue", f_apiglue), ("LPGlue", f_lpglue), ("SortGlue", f_sort)):
         path = os.path.join(outdir, fname + ".lean")
         try:
             text = make()
